@@ -12,6 +12,7 @@ package main
 // cv_c11.go): ordered parallel emission, per-case PRNGs, the field table of the quote, world derivation.
 
 import (
+	"github.com/google/go-tdx-guest/verify"
 	"bytes"
 	"crypto/ecdsa"
 	"crypto/elliptic"
@@ -797,7 +798,32 @@ func c01(r *hx.Run) {
 				expect = "23"
 			}
 		}
-		return vCase{w, c01Oracle(w, expect, notes), []string{"bit-mutant", fault, "base:" + c.b.name}}
+		inner := c01Oracle(w, expect, notes)
+		// the same mutant as a byte string through the raw entry point: "no bit … can change" is a statement about the bytes
+		// the guest produced, whichever entry point receives them
+		raw := append([]byte{}, c.b.genuine...)
+		raw[c.pos] ^= 1 << c.bit
+		return vCase{w, func(vr vResult) string {
+			if f := inner(vr); f != "" {
+				return f
+			}
+			if expect == "none" {
+				return ""
+			}
+			ro := &verify.Options{GetCollateral: w.Spec.GC, CheckRevocations: w.Spec.CR, Getter: &world.Getter{M: w.Getter.M}, TrustedRoots: w.Pool()}
+			if n := w.Spec.Now; n != nil {
+				ro.Now = &verify.TimeSet{PckCertChain: n[0], TcbInfo: n[1], QeIdentity: n[2], PckCrl: n[3], RootCaCrl: n[4]}
+			}
+			var rerr error
+			res, _ := hx.Guard(func() string { rerr = verify.RawTdxQuote(raw, ro); return "" })
+			if res == "panic" {
+				return "crash in verify.RawTdxQuote on a single-bit mutant"
+			}
+			if rerr == nil {
+				return fmt.Sprintf("verify.RawTdxQuote accepted the genuine quote with bit %d of byte 0x%x (%s) flipped: that bit is covered by link %s [%s]", c.bit, c.pos, fault, expect, w.Spec.Fault)
+			}
+			return ""
+		}, []string{"bit-mutant", fault, "base:" + c.b.name}}
 	})
 
 	// ---- (b) structured forgeries, each under the four option settings with honest collateral
